@@ -435,10 +435,24 @@ fn c08_session(ctx: &Ctx, idx: usize, seeds: &[String]) {
         match rng.below(10) {
             0 => {
                 e.send("ucinewgame");
-                // the position after ucinewgame is the start position
+                // the position after ucinewgame is the start position, whatever was set up before:
+                // every component, the key and an empty record
                 if let Ok(d) = expected_dump(&start_game) {
+                    if let Some(got) = get_dump(&mut e) {
+                        out::count("C08.evaluations", 1);
+                        out::count("C08.dumps_after_ucinewgame", 1);
+                        if let Some((field, why)) = dump_diff(&got, &d) {
+                            out::violation(
+                                "C08",
+                                &format!("ucinewgame-{field}"),
+                                format!("after ucinewgame the session position is not the start position: {why} (commands so far: {:?})", e.stdin_script().iter().rev().take(4).collect::<Vec<_>>()),
+                                replay_json("C08", idx, &e),
+                            );
+                        }
+                    }
                     current = d;
                 }
+                prev_game = None;
                 continue;
             }
             1 => {
@@ -476,12 +490,29 @@ fn c08_session(ctx: &Ctx, idx: usize, seeds: &[String]) {
                 g
             }
             (Some(pg), 5) => pg.clone(),
-            // now and then a very long game: a position command of several kilobytes
+            // the current game described as a bare FEN (no move list), like a GUI that only ever
+            // sends the current position: first now, two plies later again
+            (Some(pg), 6) if !pg.moves.is_empty() => {
+                let cut = if rng.chance(1, 2) { pg.moves.len() } else { pg.moves.len().saturating_sub(2) };
+                out::count("C08.bare_fen_of_the_current_game", 1);
+                Game {
+                    start_fen: pg.positions[cut].fen(),
+                    is_startpos: false,
+                    moves: vec![],
+                    positions: vec![pg.positions[cut].clone()],
+                }
+            }
+            // now and then a very long game: a position command of several kilobytes, rarely of
+            // more than 16 KB
             _ if rng.chance(1, 60) => random_game(&mut rng, seeds, 1_100, false),
+            _ if rng.chance(1, 150) => random_game(&mut rng, seeds, 4_500, false),
             _ => random_game(&mut rng, seeds, 40, false),
         };
         if g.moves.len() > 800 {
             out::count("C08.commands_longer_than_800_plies", 1);
+        }
+        if g.command().len() > 16_384 {
+            out::count("C08.commands_longer_than_16KB", 1);
         }
         // a GUI may also describe the same game from a later point: FEN of the position after k
         // plies (with its true clocks) followed by the remaining moves
@@ -498,8 +529,14 @@ fn c08_session(ctx: &Ctx, idx: usize, seeds: &[String]) {
             g
         };
         let corrupt = rng.chance(2, 5) && g.moves.len() < 400;
-        if !corrupt {
+        if !corrupt && !g.moves.is_empty() {
             prev_game = Some(g.clone());
+        } else if !corrupt && g.moves.is_empty() && !g.is_startpos {
+            // a bare FEN: the next command may be the bare FEN two plies on (same game continued)
+            let cont = extend_game(&mut rng, &g, 2);
+            if cont.moves.len() == 2 {
+                prev_game = Some(cont);
+            }
         }
         if !corrupt {
             let want = match expected_dump(&g) {
@@ -880,6 +917,26 @@ fn go_session(ctx: &Ctx, idx: usize, seeds: &[String], prop: &str) {
         }
     }
     e.send(&g.command());
+    if prop == "C14" && idx < 2 {
+        // a long-lived process with a very large cache: a multi-million-node search first, then
+        // ordinary depth-limited searches, whose reports must be as complete as in a fresh process
+        let p0 = g.last().clone();
+        let big = Limits { nodes: Some(6_000_000), ..Limits::default() };
+        let o = do_go(&mut e, &big, p0.stm);
+        out::count("C14.big_cache_sessions", 1);
+        c14_verdict(idx, &e, &o, &big, &p0, &format!("'{}' then '{}'", g.command(), big.command()));
+        for d in [3u64, 1, 4] {
+            let g2 = random_game(&mut rng, seeds, 10, true);
+            e.send(&g2.command());
+            let l = Limits { depth: Some(d), ..Limits::default() };
+            let p2 = g2.last().clone();
+            let o = do_go(&mut e, &l, p2.stm);
+            c14_verdict(idx, &e, &o, &l, &p2, &format!("(after a 6,000,000-node search in the same process) '{}' then '{}'", g2.command(), l.command()));
+        }
+        e.send("quit");
+        let _ = e.wait_exit(1_000);
+        return;
+    }
     if prop == "C14" && idx % 5 == 4 {
         c14_isready_storm(ctx, idx, &mut e, &g, &mut rng);
         return;
@@ -1612,8 +1669,111 @@ pub fn run_c15(ctx: &Ctx) -> Result<(), String> {
     Ok(())
 }
 
+/// A long-lived process: hundreds of go commands that end at once although their time budget is
+/// huge. Whatever the engine sets aside per go (threads, timers) must be given back: an idle engine
+/// has one thread. A leak does not kill today, it kills after some thousand moves.
+fn c15_long_lived(ctx: &Ctx, idx: usize) {
+    let Some(mut e) = spawn(ctx, &[]) else { return };
+    let rounds = 250;
+    let mut answered = 0;
+    e.send("position startpos");
+    for k in 0..rounds {
+        let cmd = match k % 4 {
+            0 => "go depth 1 movetime 3600000",
+            1 => "go depth 2 wtime 72000000 btime 72000000",
+            2 => "go nodes 50 movetime 3600000",
+            _ => "go movetime 3600000",
+        };
+        e.skip_to_end();
+        let from = e.log.len();
+        e.send(cmd);
+        if k % 4 == 3 {
+            e.send("stop");
+        }
+        if e.wait_since(from, 8_000, |ev| ev.src == Src::Out && ev.line.starts_with("bestmove")).is_none() {
+            break;
+        }
+        answered += 1;
+    }
+    out::count("C15.evaluations", answered);
+    out::count("C15.long_lived_sessions", 1);
+    e.settle(400);
+    let threads = std::fs::read_to_string(format!("/proc/{}/status", e.pid()))
+        .ok()
+        .and_then(|t| t.lines().find(|l| l.starts_with("Threads:")).and_then(|l| l.split_whitespace().nth(1).and_then(|x| x.parse::<u64>().ok())));
+    if let Some(n) = threads {
+        out::set_max("C15.max_threads_of_an_idle_engine", n);
+        if answered >= 50 && n > 3 {
+            out::violation(
+                "C15",
+                "threads-pile-up",
+                format!("after {answered} go commands (all answered, engine idle for 400 ms) the process has {n} threads; an idle engine has one. At this rate the process runs out of threads after a few thousand moves and dies on an ordinary go"),
+                replay_json("C15", idx, &e),
+            );
+        }
+    }
+    e.send("isready");
+    if e.wait_out(READY_TIMEOUT_MS, "readyok").is_none() {
+        out::violation("C15", "killed[long-lived session]", format!("no readyok after {answered} go commands in one process"), replay_json("C15", idx, &e));
+    }
+    e.send("quit");
+    let _ = e.wait_exit(2_000);
+}
+
+/// go on positions where nothing is legal (mate, stalemate), with young and old clocks.
+fn c15_terminal(ctx: &Ctx, idx: usize, rng: &mut Rng) {
+    let Some(mut e) = spawn(ctx, &[]) else { return };
+    let terminal = [
+        "7k/5K2/6Q1/8/8/8/8/8 b - - {H} 120",
+        "R5k1/5ppp/8/8/8/8/5PPP/6K1 b - - {H} 60",
+        "7k/5Q2/6K1/8/8/8/8/8 b - - {H} 90",
+        "rnb1kbnr/pppp1ppp/8/4p3/6Pq/5P2/PPPPP2P/RNBQKBNR w KQkq - {H} 3",
+        "K1k5/P7/8/8/8/8/8/8 w - - {H} 77",
+    ];
+    for _ in 0..3 {
+        let half = *rng.pick(&[0u32, 3, 50, 99, 100, 101, 120, 149]);
+        let fen = rng.pick(&terminal).replace("{H}", &half.to_string());
+        let Ok(p) = Pos::from_fen(&fen) else { continue };
+        if !p.is_sane() || !p.legal_moves().is_empty() {
+            continue;
+        }
+        let go = *rng.pick(&["go depth 3", "go movetime 20", "go wtime 60000 btime 60000", "go nodes 100", "go", "go infinite"]);
+        let from = e.log.len();
+        e.send(&format!("position fen {fen}"));
+        e.send(go);
+        if go == "go" || go == "go infinite" {
+            e.send("stop");
+        }
+        e.send("isready");
+        out::count("C15.evaluations", 1);
+        out::count("C15.go_on_terminal_positions", 1);
+        out::count_shape(&format!("position fen F go-on-terminal {go} half>=100:{}", half >= 100));
+        if e.wait_out(READY_TIMEOUT_MS, "readyok").is_none() {
+            let stderr = e.stderr_lines(from);
+            let panic_line = stderr.iter().find(|s| s.contains("panicked")).cloned().unwrap_or_default();
+            out::violation(
+                "C15",
+                "killed[go on a position without legal moves]",
+                format!("'position fen {fen}' + '{go}' (nothing is legal there, half-move clock {half}): no readyok afterwards; {panic_line}"),
+                replay_json("C15", idx, &e),
+            );
+            return;
+        }
+    }
+    e.send("quit");
+    let _ = e.wait_exit(2_000);
+}
+
 fn c15_session(ctx: &Ctx, idx: usize, seeds: &[String]) {
     let mut rng = Rng::derive(ctx.seed, 0xC15_0000 + idx as u64);
+    if idx < 2 {
+        c15_long_lived(ctx, idx);
+        return;
+    }
+    if idx % 16 == 5 {
+        c15_terminal(ctx, idx, &mut rng);
+        return;
+    }
     let Some(mut e) = spawn(ctx, &[]) else { return };
     let lines = 10 + rng.below(40);
     let end_with_eof = idx % 3 == 0;
